@@ -87,7 +87,7 @@ def g_net(r, deterministic=False, small=False, poisson_ok=True):
         x = r.random()
         if x < 0.15:
             servers.append({"k": "sched", "cs": [r.choice([0, 1, 2]), r.choice([1, 2])], "ends": [3.0, 7.0],
-                            "pre": r.choice([False, "resume", "restart", "resample"]), "off": 0.0})
+                            "pre": r.choice([False, "resume", "restart", "resample"]), "off": r.choice([0.0, 0.0, 0.5, 1.25])})
         elif x < 0.22:
             servers.append("inf")
         else:
